@@ -79,30 +79,30 @@ func check(c *Ctx, r *Report) error {
 	h.corpus(&cp)
 
 	// ---- (a) correspondence
-	if err := h.matrixCases(TierN(c.Tier, 900, 20000, 3000)); err != nil {
+	if err := h.matrixCases(TierN(c.Tier, 1800, 20000, 4000)); err != nil {
 		return err
 	}
-	if err := h.funCases(TierN(c.Tier, 1500, 30000, 5000)); err != nil {
+	if err := h.funCases(TierN(c.Tier, 3000, 30000, 6000)); err != nil {
 		return err
 	}
-	if err := h.cacheCases(TierN(c.Tier, 40, 600, 120)); err != nil {
+	if err := h.cacheCases(TierN(c.Tier, 60, 600, 150)); err != nil {
 		return err
 	}
-	if err := h.voxelCases(TierN(c.Tier, 24, 300, 60)); err != nil {
+	if err := h.voxelCases(TierN(c.Tier, 30, 300, 60)); err != nil {
 		return err
 	}
 
 	// ---- (b) direct oracles
-	h.blendOracles(TierN(c.Tier, 4000, 200000, 20000))
-	n3 := TierN(c.Tier, 700, 12000, 2500)
-	n2 := TierN(c.Tier, 400, 6000, 1200)
+	h.blendOracles(TierN(c.Tier, 20000, 400000, 60000))
+	n3 := TierN(c.Tier, 1500, 20000, 4000)
+	n2 := TierN(c.Tier, 800, 10000, 2000)
 	for k := 0; k < n3; k++ {
 		h.walk(h.g.Gen3(k%4+1), 0)
 	}
 	for k := 0; k < n2; k++ {
 		h.walk(h.g.Gen2(k%4+1), 0)
 	}
-	h.strata(TierN(c.Tier, 40, 600, 120))
+	h.strata(TierN(c.Tier, 120, 2000, 400))
 
 	r.Coverage["node_oracles"] = h.hist
 	r.Rule = "correspondence: generated arguments for every matrix constructor / Mul / Inverse / Determinant / MulPosition of M22, M33, M44 (rotation axes incl. near-degenerate and huge, angles at and around multiples of pi/2, mirrors, products of rigid and non-rigid factors, nearly singular matrices), RoundMin/ChamferMin/PolyMin/PolyMax (radius from 1e-6 to 100x the operands), SawTooth, the four extrusion maps, CacheSDF2 histories with repeats / -0 / NaN, VoxelSDF3 at every kind of position; the Coq model at primitive floats must agree within 1e-12 relative (bit-exact agreement counted separately). direct oracles: every internal node of random expression trees (depth <= 4, 35 combinators, parameters recovered from the Coq term the generator emitted in lock step) and adversarial parameter strata: parent Evaluate vs the named operation on the children's Evaluate at 6 points per node; exact where the operation is exact in floating point (min, max, negation, offset, elongate, array), 1e-9 relative otherwise. non-trivial = a node with at least one operand that is itself a combinator, or a blend / matrix case off the trivial strata; distinct by tree description / argument tuple."
